@@ -199,10 +199,8 @@ def rules_for(prop: str) -> List[str]:
     return [rid for rid, r in RULES.items() if prop in r.props]
 
 
-def check_property(ctx: Ctx, prop: str, meta: dict, seed: int = 0, out=sys.stdout) -> int:
-    """Run every rule that serves `prop`, print report lines, write evidence,
-    return the exit status."""
-    t0 = time.time()
+def evaluate_property(ctx: Ctx, prop: str):
+    """Run every rule that serves `prop`; returns (rule ids, obligations, errors, new findings, known findings)."""
     rids = rules_for(prop)
     for rid in rids:
         ctx.run_rule(rid)
@@ -223,6 +221,16 @@ def check_property(ctx: Ctx, prop: str, meta: dict, seed: int = 0, out=sys.stdou
             known_hit.append(f)
         else:
             new.append(f)
+    return rids, obligations, errors, new, known_hit
+
+
+def check_property(ctx: Ctx, prop: str, meta: dict, seed: int = 0, out=sys.stdout, extra: Optional[dict] = None) -> int:
+    """Run every rule that serves `prop`, print report lines, write evidence,
+    return the exit status."""
+    t0 = time.time()
+    rids, obligations, errors, new, known_hit = evaluate_property(ctx, prop)
+    known = load_known()
+    findings = [o for o in obligations if not o.ok and not o.info]
     fired = {f.key for f in findings}
     stale = [
         k
@@ -296,6 +304,7 @@ def check_property(ctx: Ctx, prop: str, meta: dict, seed: int = 0, out=sys.stdou
             "units_analysed": ctx.units,
             "checker_cmd": f"/venv/bin/python -m sa.check {prop} --tier {ctx.tier}",
             "trusted_base": meta.get("trusted", []),
+            **({"self_validation": extra} if extra else {}),
         },
         "assumptions": meta.get("assumptions", []),
         "wall_s": round(time.time() - t0, 3),
